@@ -8,6 +8,7 @@ import (
 	"math"
 	"sort"
 	"strings"
+	"sync/atomic"
 	"testing"
 	"time"
 
@@ -134,6 +135,10 @@ func c27Fmt(v float64) string {
 // (a) definitions
 // ---------------------------------------------------------------------------------
 
+// c27WorstRatio: largest |engine-ref| / tolerance seen on large-offset cases (calibration margin);
+// written by c27JudgeDef, read into the evidence.
+var c27WorstRatioPermille atomic.Int64
+
 type c27Mismatch struct {
 	class  string
 	detail string
@@ -226,6 +231,15 @@ func c27JudgeDef(c c27Case, st *c27Store, sp c27DataSpec, eng c27EngResult) (mm 
 			if rs.tol != nil {
 				absTol = rs.tol[off+i]
 			}
+			if (c.big || sp.Big != 0) && !math.IsNaN(got) && !math.IsInf(got, 0) && !math.IsInf(want, 0) {
+				ratio := int64(1000 * math.Abs(got-want) / (c27RelTol(c, sp)*math.Max(1, math.Abs(want)) + absTol))
+				for {
+					old := c27WorstRatioPermille.Load()
+					if ratio <= old || c27WorstRatioPermille.CompareAndSwap(old, ratio) {
+						break
+					}
+				}
+			}
 			if !c27CloseTol(got, want, c27RelTol(c, sp), absTol) {
 				class := "value"
 				if es == nil {
@@ -317,7 +331,9 @@ func c27JudgeTopK(c c27Case, members []c27RefSeries, off int, eng c27EngResult, 
 			return ms[i].w < ms[j].w
 		})
 		n := min(k, len(ms))
-		if n < len(ms) && ms[n-1].w == ms[n].w {
+		// a tie at the cut — also one that is a tie only up to the rounding of the weight sums
+		// (equal series such as countsec 1/5 everywhere add up in a different order)
+		if n < len(ms) && math.Abs(ms[n-1].w-ms[n].w) <= 1e-9*math.Max(math.Abs(ms[n-1].w), math.Abs(ms[n].w)) {
 			notJudged += len(ms)
 			for _, m := range ms {
 				delete(eng.series, m.key)
@@ -474,6 +490,9 @@ func TestVerifC27(t *testing.T) {
 	c27CanonicalDefs(r)
 	c27Canonical(r, 1, 1)
 	c27Canonical(r, 5, 10)
+	defer func() {
+		r.SetCounter("def.large_offset.worst_error_over_tolerance_permille", c27WorstRatioPermille.Load())
+	}()
 	r.Parallel(workers, "cases", func(w *verifkit.Worker) {
 		for di := w.Index; di < nData; di += workers {
 			rnd := r.Rand(fmt.Sprintf("data/%d", di))
